@@ -101,7 +101,8 @@ def build_level(seed, n_cases):
             fail = 'd' if ci == 0 else (rnd.choice(names[1:]) if rnd.random() < .6 else None)
             R = {}
             for nm in names:
-                R[nm] = {'buildScript': 'echo "start %s $$" >> %s\nsleep 0.%d\necho "end %s $$" >> %s\n%s' % (nm, log, rnd.randint(0, 3), nm, log, 'exit 1\n' if nm == fail else 'echo ok > out.txt\n'),
+                # the failing script fails at once, the others take a while: a failure must not take down unrelated running steps
+                R[nm] = {'buildScript': 'echo "start %s $$" >> %s\nsleep %s\necho "end %s $$" >> %s\n%s' % (nm, log, '0' if nm == fail else '0.%d' % rnd.randint(2, 6), nm, log, 'exit 1\n' if nm == fail else 'echo ok > out.txt\n'),
                          'packageScript': 'cp "$1"/out.txt . 2>/dev/null || true\n'}
                 if deps[nm]: R[nm]['depends'] = deps[nm]
             R[names[0]]['root'] = True
@@ -138,9 +139,9 @@ def build_level(seed, n_cases):
                         if rc == 0: return {'kind': 'failure-not-reported', **desc}
                         if keep:
                             must = [x for x in (reach(names[0]) | {names[0]}) if x != fail and fail not in reach(x)]
-                            lost = [x for x in must if x not in starts]
+                            lost = [x for x in must if x not in ended]        # started is not enough: the script has to run to its end
                             if lost: return {'kind': 'keep-going-skipped-a-package-that-does-not-depend-on-the-failure', 'packages': sorted(lost), **desc}
-                    results[(jobs, keep)] = (rc == 0, sorted(set(starts)) if (keep or fail is None) else None)
+                    results[(jobs, keep)] = (rc == 0, sorted(ended) if (keep or fail is None) else None)
                     shutil.rmtree(p.dir, ignore_errors=True)
             ks = [v for (j, k), v in results.items() if k]
             if any(v != ks[0] for v in ks): return {'kind': 'result-depends-on-the-job-count', 'recipes': deps, 'failing': fail, 'observed': {str(k): v for k, v in results.items()}}
